@@ -36,7 +36,8 @@ Inductive tid := TP | TC.
 Inductive stmt :=
 | SIns (t : tid) (rows : list row)
 | SUpd (t : tid) (sets : list (nat * value)) (w : option expr)     (* SET column = literal, ... *)
-| SDel (t : tid) (w : option expr).
+| SDel (t : tid) (w : option expr)
+| SUpdE (t : tid) (c : nat) (e : expr) (w : option expr).   (* SET column c = expression over the OLD row *)
 
 Definition db := (table * table)%type.            (* (rows of p, rows of c) *)
 Definition cols_of (sch : schema) (t : tid) : list cdecl := match t with TP => s_p sch | TC => s_c sch end.
@@ -128,6 +129,19 @@ Definition upd_row (sets : list (nat * value)) (r : row) : row := upd_from sets 
 Definition upd_tab (sets : list (nat * value)) (w : option expr) (t : table) : table :=
   map (fun r => if wpass w r then upd_row sets r else r) t.
 
+(* SET column c = e: every selected row receives the value of e on the row as it was *)
+Fixpoint set_nth (c : nat) (v : value) (r : row) : row :=
+  match r with
+  | [] => []
+  | x :: r' => match c with O => v :: r' | S c' => x :: set_nth c' v r' end
+  end.
+Definition upd_row_e (c : nat) (e : expr) (r : row) : row :=
+  match eval e r with Some v => set_nth c v r | None => r end.
+Definition upd_tab_e (c : nat) (e : expr) (w : option expr) (t : table) : table :=
+  map (fun r => if wpass w r then upd_row_e c e r else r) t.
+Definition upd_e_def (e : expr) (w : option expr) (t : table) : bool :=
+  forallb (fun r => negb (wpass w r) || match eval e r with Some v => val_fits v | None => false end) t.
+
 Fixpoint nodupn (l : list nat) : bool :=
   match l with [] => true | x :: l' => negb (existsb (Nat.eqb x) l') && nodupn l' end.
 Definition sets_ok (n : nat) (sets : list (nat * value)) : bool :=
@@ -166,6 +180,7 @@ Definition apply_stmt (sch : schema) (d : db) (s : stmt) : db :=
   match s with
   | SIns t rows => set_tab d t (tab_of d t ++ rows)
   | SUpd t sets w => set_tab d t (upd_tab sets w (tab_of d t))
+  | SUpdE t c e w => set_tab d t (upd_tab_e c e w (tab_of d t))
   | SDel TC w => (fst d, filter (fun r => negb (wpass w r)) (snd d))
   | SDel TP w =>
       let gone := filter (wpass w) (fst d) in
@@ -185,6 +200,10 @@ Definition stmt_defined (sch : schema) (d : db) (s : stmt) : bool :=
       match t with TP => fk_std sch (fst d) | TC => true end
   | SDel t w =>
       wdefined w (tab_of d t) && match t with TP => fk_std sch (fst d) | TC => true end
+  | SUpdE t c e w =>
+      Nat.ltb c (length (cols_of sch t)) && wdefined w (tab_of d t) && upd_e_def e w (tab_of d t) &&
+      forallb (row_def (cols_of sch t)) (upd_tab_e c e w (tab_of d t)) &&
+      match t with TP => fk_std sch (fst d) | TC => true end
   end.
 
 (* THE PROPERTY: apply, then keep iff valid *)
